@@ -159,6 +159,17 @@ def oracle_collapse(args):
     t = ec.make_traj(c, "exp", cls="AugmentedFSSH")
     t.state = int(args["state"])
     t.rho = np.array(c["rho"])
+    if args.get("eps") is not None:
+        # the state that is removed holds only eps of the population (1e-12 .. 1e-4): the collapse still has to leave EXACTLY the
+        # pure active state - the coherence sqrt(eps) is what would survive a skipped reset
+        eps = float(args["eps"])
+        a_ = int(args["state"])
+        r_ = np.zeros((2, 2), dtype=complex)
+        r_[a_, a_] = 1.0 - eps
+        r_[1 - a_, 1 - a_] = eps
+        r_[a_, 1 - a_] = np.sqrt(eps * (1.0 - eps)) * np.exp(0.7j)
+        r_[1 - a_, a_] = np.conj(r_[a_, 1 - a_])
+        t.rho = r_
     t.delR += rng.normal(size=t.delR.shape)
     t.delP += rng.normal(size=t.delP.shape)
     t.gamma_collapse = lambda electronics=None: np.array([2.0, 2.0])       # force the collapse branch
@@ -395,6 +406,9 @@ def run(ctx):
             ctx.oracle_fail("invalid-state-after-restart:" + a["cls"], "restart_valid", a, obs, req, text)
     for i in range(ctx.budget(24, 400)):
         a = {"seed": int(rng.integers(1, 10 ** 6)), "n": int(rng.integers(1, 4)), "state": i % 2, "hop": i >= 8}
+        if i % 4 == 1 and not a["hop"] or i % 8 == 5:
+            a["hop"] = False
+            a["eps"] = float(10 ** rng.uniform(-12, -4))
         ok, obs, req, text = oracle_collapse(a)
         ctx.case(("collapse", a["n"], a["state"], a["hop"], int(obs["hopped"])))
         ctx.count("collapse")
